@@ -65,8 +65,8 @@ pub fn dump_kdbx4(
     let header_sha256 = crypt::calculate_sha256(&[&header_data])?;
 
     // write out header and header hash
-    writer.write(&header_data)?;
-    writer.write(&header_sha256)?;
+    writer.write_all(&header_data)?;
+    writer.write_all(&header_sha256)?;
 
     // derive master key from composite key, transform_seed, transform_rounds and master_seed
     let key_elements = db_key.get_key_elements()?;
@@ -81,7 +81,7 @@ pub fn dump_kdbx4(
     let header_hmac_key = hmac_block_stream::get_hmac_block_key(u64::max_value(), &hmac_key)?;
     let header_hmac = crypt::calculate_hmac(&[&header_data], &header_hmac_key)?;
 
-    writer.write(&header_hmac)?;
+    writer.write_all(&header_hmac)?;
 
     // Initialize inner encryptor from inner header params
     let mut inner_cipher = db
@@ -113,7 +113,7 @@ pub fn dump_kdbx4(
         .encrypt(&payload_compressed)?;
 
     let payload_hmac = hmac_block_stream::write_hmac_block_stream(&payload_encrypted, &hmac_key)?;
-    writer.write(&payload_hmac)?;
+    writer.write_all(&payload_hmac)?;
 
     Ok(())
 }
